@@ -49,7 +49,7 @@ CHECKS = {
             "Every sequence over {-1,0,1,2} up to the length bound, four size_hint shapes, percentile over a p grid + all rank boundaries, compared with the mathematical definition; panics are violations.",
             "values from a 4-element alphabet; f64 mean compared exactly (exact for these inputs)", "6 C17"),
     "C18": ("H histcheck", "exhaustive DFS over all operation histories up to a depth bound on the real structures (state = history), reference closure compared after every operation",
-            "Every add-sequence over 4 elements to depth 6 (7 thorough) and over 5 elements to depth 4 (5) on the real TrRelUnionFind; every add/find/union sequence to depth 5 (6) on the real UnionFind incl. the unsafe id-based API; after each operation all public queries and the structures' own invariant checks are compared with a Warshall closure / partition.",
+            "Every add-sequence over 4 elements to depth 6 (7 thorough) and over 5 elements to depth 4 (5) on the real TrRelUnionFind; histories from non-initial states (r <= 7 (8) nested class collapses, each in one of 4 orders, followed by every add over 9 (10) elements; thorough also every pair of adds after r <= 5); every add/find/union sequence to depth 5 (6) on the real UnionFind incl. the unsafe id-based API; after each operation all public queries and the structures' own invariant checks are compared with a Warshall closure / partition.",
             "element domain 4-5, depth bound; hash iteration order is whatever FxHasher gives for u8 keys", "6 C18"),
     "C20": ("S vsched", "exhaustive enumeration of pool configurations (one process each) x deviation-bounded exhaustive schedule exploration of the real parallel code",
             "Programs: transitive closure, un-indexed scans (CRelNoIndex), lattice, initialised relation; pool current at construction in {global(2),1,2,3} x pool at run 1 x pool at run 2 in {1,2,3} (+ nested 2-in-3, thorough: a third run), facts added between runs, every execution with <= 2 (3) deviations; result must equal the serial program's. Plus three program values (two parallel of the same type, one serial) running concurrently on 3 workers, and two parallel values (one with three strata) running at the same time in pools of sizes 1 and 3, every execution of that configuration in a fresh process.",
